@@ -175,16 +175,50 @@ def check_aggregation(ctx, cls):
         raise AnalysisError('check_prior: loop over the parameters not found')
     lp = loops[0]
     kv, vv = [src(e) for e in lp.target.elts]
-    first = lp.body[0]
-    ok_pos = isinstance(first, ast.If) and src(first.test).replace(' ', '') in (
-        "'positive'inself.prior[%s]and%s<0" % (kv, vv), "%s<0and'positive'inself.prior[%s]" % (vv, kv)) and \
-        [util.stmt_key(s) for s in first.body] == ['return np.inf']
+    # aliases defined once inside the loop body (`prior_spec = self.prior[key]`, `prior_type = prior_spec[0]`) are read through
+    body_fn = ast.FunctionDef(name='_body', args=ast.arguments(posonlyargs=[], args=[], kwonlyargs=[], kw_defaults=[], defaults=[]),
+                              body=lp.body, decorator_list=[], type_params=[])
+    defs = {n_: v_ for n_, v_ in util.single_defs(body_fn).items() if v_ is not None}
+    k_ = lambda t: t.replace(' ', '')
+    spec = 'self.prior[%s]' % kv
+    rej = [s_ for s_ in lp.body if isinstance(s_, ast.If) and [util.stmt_key(x) for x in s_.body] == ['return np.inf'] and not s_.orelse]
+    ok_pos = False
+    pos_detail = ''
+    if len(rej) == 1:
+        t = util.inline(rej[0].test, defs)
+        conj = sorted(k_(util.canon_test(v)) for v in (t.values if isinstance(t, ast.BoolOp) and isinstance(t.op, ast.And) else [t]))
+        ok_pos = conj in (sorted(["'positive'in%s" % spec, '%s<0' % vv]), sorted(["'positive'in%s[1:]" % spec, '%s<0' % vv]))
+        pos_detail = '' if ok_pos else 'rejection test is %s' % ' and '.join(conj)
+        # nothing between the loop head and the rejection may return or add to the sum
+        before = lp.body[:lp.body.index(rej[0])]
+        if any(isinstance(x, (ast.Return, ast.AugAssign)) for b in before for x in ast.walk(b)):
+            ok_pos = False
+            pos_detail = 'the family is consulted before the positive flag'
+    else:
+        pos_detail = '%d rejection tests found' % len(rej)
     ctx.ob('R16.3-aggregation', 'positive-flag', ok_pos, where,
-           "a negative value under the 'positive' flag is rejected before the family is consulted", '')
+           "a negative value under the 'positive' flag of *this* parameter is rejected before the family is consulted", pos_detail)
+    # the verdict on one parameter must not depend on the parameters seen before it: apart from the running sum, no variable written in
+    # the loop body may be read in a later iteration before it is written again
+    assigned = set()
+    for n_ in ast.walk(body_fn):
+        if isinstance(n_, (ast.Assign, ast.AugAssign, ast.AnnAssign)):
+            for t_ in (n_.targets if isinstance(n_, ast.Assign) else [n_.target]):
+                for x in ast.walk(t_):
+                    if isinstance(x, ast.Name) and isinstance(x.ctx, ast.Store):
+                        assigned.add(x.id)
+    accs = {src(n_.target) for n_ in ast.walk(body_fn) if isinstance(n_, ast.AugAssign) and isinstance(n_.op, ast.Add) and isinstance(n_.target, ast.Name)}
+    reads, _ = paths.definite_assignment(lp.body, {kv, vv}, assigned - accs)
+    carried = sorted({n_ for n_, _ in reads})
+    ctx.ob('R16.3-aggregation', 'per-parameter', not carried, where,
+           'what is decided for one parameter depends on that parameter only: no variable other than the running sum is carried from one '
+           'loop iteration into the next', '' if not carried else 'carried across iterations: %s (first read at %s)' % (
+               ', '.join(carried), ctx.loc('pid_interfaces', reads[0][1])))
     var = None
-    for s in lp.body:
-        if isinstance(s, ast.Assign) and src(s.value) == 'self.prior[%s][0]' % kv:
-            var = src(s.targets[0])
+    for s_ in lp.body:
+        if isinstance(s_, ast.Assign) and len(s_.targets) == 1 and isinstance(s_.targets[0], ast.Name) and \
+                k_(src(util.inline(s_.value, {a: b for a, b in defs.items() if a != s_.targets[0].id}))) == '%s[0]' % spec:
+            var = s_.targets[0].id
     if var is None:
         raise AnalysisError('check_prior: family name not read from position 0')
     disp = util.string_dispatch(lp.body, var)
